@@ -300,51 +300,8 @@ def run(repo: Repo, tier: str) -> Report:
     from ..rules import nb_layout
     rep.floor("gufunc kernels checked for declared layouts", nb_layout(rep, kernels, rule="R-LAYOUT"), 14)
     # ---------------------------------------------------------------- 5. R-PRANGE
-    pk = [k for k in kernels.values() if k.parallel]
-    rep.floor("parallel kernels", len(pk), 1)
-    for k in pk:
-        pr = [n for n in ast.walk(k.node) if isinstance(n, ast.For) and isinstance(n.iter, ast.Call) and ast.unparse(n.iter.func).endswith("prange")]
-        if len(pr) != 1:
-            raise AnalysisError(f"unsupported construct: {k.name}: expected one prange loop")
-        loop = pr[0]
-        pv = loop.target.id
-        allocated_in = {st.targets[0].id for st in ast.walk(loop) if isinstance(st, ast.Assign) and isinstance(st.targets[0], ast.Name) and isinstance(st.value, ast.Call)
-                        and ast.unparse(st.value.func).split(".")[-1] in ("zeros", "ones", "empty", "full", "copy", "zeros_like")}
-        problems = []
-        for st in ast.walk(loop):
-            tg = []
-            if isinstance(st, ast.Assign):
-                tg = st.targets
-            elif isinstance(st, ast.AugAssign):
-                tg = [st.target]
-            for t in tg:
-                for tt in (t.elts if isinstance(t, ast.Tuple) else [t]):
-                    if isinstance(tt, ast.Subscript) and isinstance(tt.value, ast.Name) and tt.value.id not in allocated_in:
-                        idx = {x.id for x in ast.walk(tt.slice) if isinstance(x, ast.Name)}
-                        if pv not in idx:
-                            problems.append(f"`{norm_stmt(st)}` writes shared array `{tt.value.id}` without the prange index `{pv}`")
-            if isinstance(st, ast.Call) and ast.unparse(st.func).split(".")[-1] == "round" and len(st.args) == 3:
-                o = st.args[2]
-                if isinstance(o, ast.Subscript) and isinstance(o.value, ast.Name) and o.value.id not in allocated_in:
-                    idx = {x.id for x in ast.walk(o.slice) if isinstance(x, ast.Name)}
-                    if pv not in idx:
-                        problems.append(f"`{norm_stmt(st)}` rounds into shared array `{o.value.id}` without the prange index")
-                elif isinstance(o, ast.Name) and o.id not in allocated_in:
-                    problems.append(f"`{norm_stmt(st)}` rounds into shared array `{o.id}`")
-        before = set()
-        for st in k.node.body:
-            if st is loop:
-                break
-            before |= {n.id for n in ast.walk(st) if isinstance(n, ast.Name) and isinstance(n.ctx, ast.Store)}
-        before |= {a.arg for a in k.node.args.args}
-        assigned_in = {n.id for n in ast.walk(loop) if isinstance(n, ast.Name) and isinstance(n.ctx, ast.Store)}
-        shared_scalars = sorted((before & assigned_in) - allocated_in)
-        for sname in shared_scalars:
-            problems.append(f"scalar `{sname}` defined before the prange loop is assigned inside it (race / reduction)")
-        rep.ob("R-PRANGE", k.file, k.name, "prange iterations are independent: writes go to body-allocated arrays or through the prange index; no outer scalar is assigned",
-               not problems, "; ".join(problems[:3]), loop)
-        rep.ob("R-PRANGE", k.file, k.name, "per-thread scratch arrays are allocated inside the prange body", len(allocated_in) >= 1,
-               f"arrays allocated in the body: {sorted(allocated_in)}", f"{k.name}: scratch arrays in the prange body")
+    from ..rules import prange_rule
+    rep.floor("parallel kernels", prange_rule(rep, kernels, "R-PRANGE"), 1)
 
     # ---------------------------------------------------------------- 6. R-PUBLISH
     lz = repo.func("hdc.algo.ops._helper", "lazycompile")
